@@ -150,6 +150,8 @@ def cc_case(rng, boolean=False):
     grp = {"k": rng.choice(["ccXor", "ccXor", "ccAny"]), "id": rng.choice([None, "G"]), "args": args}
     if not neg and rng.random() < 0.85:
         grp["default"] = [rng.choice(ids)]
+        if rng.random() < 0.2:
+            grp["default"] = rng.sample(ids, 2)
     other = {"k": "var", "id": rng.choice("xyz"), "b": [0, 1] if boolean else list(rng.choice([(0, 1), (0, 1), (-1, 2)]))}
     w = rng.choice(["bare", "Not", "ImplyC", "ImplyQ", "All", "Any", "AtLeast"])
     if w == "bare":
